@@ -74,6 +74,48 @@ def order_nontrivial(req, A, B):
     return int(f[1]) >= 3
 
 
+import struct
+
+LIBM_OPS = {"sin", "cos", "tan", "asin", "acos", "atan", "sinh", "cosh", "tanh", "asinh", "acosh", "atanh", "exp", "cbrt",
+            "ln", "log", "log10", "log2", "^", "atan2", "length"}
+
+
+def _fnorm(h, loose, zero_sign_free):
+    x = struct.unpack(">d", bytes.fromhex(h))[0]
+    if x != x:
+        return "nan"
+    if zero_sign_free and x == 0.0:
+        return "0"
+    if loose:
+        if x in (float("inf"), float("-inf")) or abs(x) > 1e300:
+            return "huge+" if x > 0 else "huge-"
+        return "%.9e" % x
+    return h
+
+
+def val_norm(req, v):
+    """canonical form of an encoded Val result for comparison: NaN payload/sign ignored, libm-backed
+    operators compared to 9 significant digits, min/max insensitive to the sign of zero"""
+    if v is None:
+        return v
+    f = req.split("\t")
+    name = unhex(f[2]) if len(f) > 2 else ""
+    loose = name in LIBM_OPS
+    if name in ("asinh", "acosh") and len(f) > 3 and f[3].startswith("f:"):
+        x = struct.unpack(">d", bytes.fromhex(f[3][2:]))[0]
+        if abs(x) > 1e150:
+            return "float-overflow-region"
+    zf = name in ("min", "max")
+    if v.startswith("f:"):
+        return "f:" + _fnorm(v[2:], loose, zf)
+    if v.startswith("a:"):
+        body = v[2:]
+        return "a:" + ";".join(_fnorm(h, loose, zf) for h in body.split(";")) if body else "a:"
+    if v.startswith("PANIC"):
+        return "PANIC"
+    return v
+
+
 PROPS = {
     "C01": dict(
         level="proof",
@@ -134,6 +176,52 @@ PROPS = {
                dict(kind="flat", quick=8000, thorough=200000, corr=["vars"], oracle=[("vars", "svars")],
                     guards=["render", "toks"], nontrivial=flat_nontrivial)],
     ),
+    "C10": dict(
+        level="proof",
+        modules=["Exmex.Props.C02Deep", "Exmex.Props.C03"],
+        theorems=["Exmex.C02.deep_new_sound", "Exmex.C02.deep_compile_sound", "Exmex.C03.fromDeep_sound"],
+        level_text=("operate_bin / operate_unary are DeepEx::new + compile on the operands re-indexed by name: their value preservation is the kernel-checked "
+                    "deep folding theorem (deep_new_sound, deep_compile_sound) and, for flat expressions, the conversion theorem (fromDeep_sound); the model of the whole "
+                    "calculation API (union of variables, shortcuts of + * / pow, unknown names) is tied to the code by exact symbolic correspondence on histories, "
+                    "and the implementation is judged against an independent f64 reference (operator applied to the operands' values) at random points"),
+        rule="pools of 2-5 parsed expressions with overlapping/disjoint variable sets, histories of 1-6 applications through operate_binary/operate_unary, the overloaded + - * / pow and neg (deep form) incl. unknown names; symbolic data type: exact comparison of value/variables/printed text with the Lean model after every step; f64: value at 3 tame points and variable list against the reference; non-trivial = at least 2 steps; distinct by request hash",
+        kinds=[dict(kind="hist", quick=8000, thorough=250000, corr=["pool", "steps"], oracle=[], nontrivial=lambda req, A, B: req.split("\t")[5].count("|") >= 1),
+               dict(kind="histf", quick=8000, thorough=250000, no_model=True, corr=[], oracle_const=[("r", "ok")], nontrivial=lambda req, A, B: req.split("\t")[3].count("|") >= 1)],
+    ),
+    "C11": dict(
+        level="proof",
+        modules=["Exmex.Props.C02Deep", "Exmex.Props.C03"],
+        theorems=["Exmex.C02.deep_compile_sound", "Exmex.C03.fromDeep_sound"],
+        level_text=("subs = node replacement + reset_vars + compile; value preservation of the folding step is the kernel-checked deep_compile_sound; the model of subs "
+                    "(simultaneous replacement, union of names, kept non-occurring variables) is tied to the code by exact symbolic correspondence, and the implementation is "
+                    "judged against an independent f64 reference (substitution by environment) at random points"),
+        rule="histories dominated by substitution steps (partial maps incl. self-referential, constant, renaming, swapping replacements; repeated substitution), flat and deep; symbolic: exact comparison with the Lean model; f64: values at tame points and variable lists against the reference; non-trivial = at least 2 steps; distinct by request hash",
+        kinds=[dict(kind="hist", quick=8000, thorough=250000, args=["subs"], corr=["pool", "steps"], oracle=[], nontrivial=lambda req, A, B: req.split("\t")[5].count("|") >= 1),
+               dict(kind="histf", quick=8000, thorough=250000, args=["subs"], no_model=True, corr=[], oracle_const=[("r", "ok")], nontrivial=lambda req, A, B: req.split("\t")[3].count("|") >= 1)],
+    ),
+    "C05": dict(
+        level="proof",
+        modules=["Exmex.Props.C02Deep", "Exmex.Props.C03"],
+        theorems=["Exmex.C02.deep_compile_sound", "Exmex.C03.fromDeep_sound"],
+        level_text=("the derivative engine (value/derivative pairs reduced in priority order, chain rule over the unary composition, rule table by name) is modelled in Lean "
+                    "(Model/Diff.lean) and tied to the code by exact symbolic correspondence of the derivative expressions; the kernel-checked part is the machinery every "
+                    "rule uses (folding, conversion, any-order evaluation); that the rules are the textbook ones is judged against an independent reference (symbolic "
+                    "textbook differentiation evaluated in f64) at tame points - partial, see DESIGN"),
+        rule="expression trees over + - * / ^ (variable exponents), unary +/-, sqrt ln log log2 log10 exp and the (inverse) trigonometric and hyperbolic functions, plus 0-10% operators without rule; index sequences of length 0..3; flat and deep; previously differentiated and substituted expressions; symbolic: exact comparison of the derivative expression with the Lean model; f64: value of the derivative at 3 tame points against textbook differentiation; non-trivial = at least one differentiation step; distinct by request hash",
+        kinds=[dict(kind="hist", quick=8000, thorough=250000, args=["diff"], corr=["pool", "steps"], oracle=[], nontrivial=lambda req, A, B: "p:" in req.split("\t")[5]),
+               dict(kind="histf", quick=10000, thorough=300000, args=["diff"], no_model=True, corr=[], oracle_const=[("r", "ok")], nontrivial=lambda req, A, B: "p:" in req.split("\t")[3])],
+    ),
+    "C09": dict(
+        level="proof",
+        modules=["Exmex.Props.C02Deep", "Exmex.Props.C03"],
+        theorems=["Exmex.C02.deep_compile_sound", "Exmex.C03.fromDeep_sound"],
+        level_text=("bookkeeping of differentiation (variable list of the antiderivative, index check before any work, n-th = repeated, iterated = sequential, order zero) "
+                    "as in Model/Diff.lean, tied to the code by exact symbolic correspondence and judged against the reference (error for an out-of-range index, variable "
+                    "list, sequential textbook derivatives) - partial, see DESIGN"),
+        rule="as C05 with index sequences of length 0..3 incl. out-of-range entries (10%), repeated and mixed indices; the variable list of every derivative must equal that of its antiderivative (also after substitution), an out-of-range index must be an error; non-trivial = at least one differentiation step; distinct by request hash",
+        kinds=[dict(kind="hist", quick=8000, thorough=250000, args=["diff"], corr=["pool", "steps"], oracle=[], nontrivial=lambda req, A, B: "p:" in req.split("\t")[5]),
+               dict(kind="histf", quick=10000, thorough=300000, args=["diff"], no_model=True, corr=[], oracle_const=[("r", "ok")], nontrivial=lambda req, A, B: "p:" in req.split("\t")[3])],
+    ),
     "C06": dict(
         level="proof",
         modules=["Exmex.Props.C07", "Exmex.Props.C14", "Exmex.Props.C02", "Exmex.Props.C02Deep"],
@@ -149,6 +237,23 @@ PROPS = {
                dict(kind="crash", quick=12000, thorough=400000, corr=["r", "fu"], oracle_const=[("r", "[oe]{3}"), ("fu", "[oe-]*"), ("x", "ok")],
                     nontrivial=lambda req, A, B: len(req.split("\t")[3]) >= 6),
                dict(kind="stack", quick=256, thorough=256, single=True, no_model=True, corr=[], oracle_const=[("r", "ok")], nontrivial=always)],
+    ),
+    "C16": dict(
+        level="proof",
+        modules=["Exmex.Props.C16"],
+        theorems=["Exmex.C16.int_add", "Exmex.C16.int_div", "Exmex.C16.int_rem", "Exmex.C16.promote_left", "Exmex.C16.promote_right",
+                  "Exmex.C16.eq_int_float", "Exmex.C16.eq_mismatch", "Exmex.C16.ord_mismatch", "Exmex.C16.error_absorbs", "Exmex.C16.unary_error", "Exmex.C16.if_else"],
+        rule="every unary operator of ValOpsFactory x every catalogue value and every binary operator x every ordered pair of catalogue values (17 ints incl. MIN/MAX/0/-1, 23 floats incl. NaN/inf/-0.0/subnormal/huge/int-range boundaries, bools, 7 arrays of length 0..5, none, error): 72012 applications, exhaustive; plus random operands; results compared by kind and bit pattern (NaN payload ignored, libm-backed functions to 9 digits); non-trivial = binary application; distinct by request hash",
+        kinds=[dict(kind="valopx", quick=72012, thorough=72012, corr=["r"], oracle=[("r", "r")], norm=val_norm, nontrivial=lambda req, A, B: req.split("\t")[1] == "bin"),
+               dict(kind="valop", quick=20000, thorough=1000000, corr=["r"], oracle=[("r", "r")], norm=val_norm, nontrivial=lambda req, A, B: req.split("\t")[1] == "bin")],
+    ),
+    "C17": dict(
+        level="proof",
+        modules=["Exmex.Props.C17"],
+        theorems=["Exmex.C17.valBin_total", "Exmex.C17.valUn_total", "Exmex.C17.neg_min", "Exmex.C17.abs_min", "Exmex.C17.rem_min_neg_one", "Exmex.C17.to_int_invalid"],
+        rule="the C16 catalogue run under catch_unwind: no operator of the value table may panic for any operand (72012 applications exhaustive + random operands); the same values through parse_val literals folded at parse time and through variables; non-trivial = every application; distinct by request hash",
+        kinds=[dict(kind="valopx", quick=72012, thorough=72012, corr=["r"], oracle_const=[("r", "(?!PANIC).*")], norm=val_norm, nontrivial=always),
+               dict(kind="valop", quick=20000, thorough=1000000, corr=["r"], oracle_const=[("r", "(?!PANIC).*")], norm=val_norm, nontrivial=always)],
     ),
     "C07": dict(
         level="proof",
